@@ -446,6 +446,63 @@ func runC20(r *core.Run) {
 			return core.Outcome{Class: fmt.Sprint("deviations=", len(t.Dev)), Nontrivial: len(t.Dev) > 0}
 		})
 
+	type longLine struct {
+		Len  int    `json:"line_len"`
+		Kind string `json:"kind"`
+	}
+	r.Bound("long-lines", "the 2x2 table with ONE line of every length 4090..4100, 8190..8194, 65530..65540, 131072 and 1 MiB: a comment line, a row with that much blank space after / between / before its tokens (spaces and tabs), a header with it before its labels")
+	core.Clause(r, "readncbi-long-lines", core.Opts{Rule: "whatever the AMOUNT of whitespace and comment: one line longer than every internal buffer (4 KiB, 64 KiB) changes nothing about the decoded pairs; non-trivial = all"},
+		func(emit func(longLine) bool) {
+			var ls []int
+			for _, c := range []int{4095, 8192, 65535} {
+				for l := c - 5; l <= c+5; l++ {
+					ls = append(ls, l)
+				}
+			}
+			ls = append(ls, 131072, 1<<20)
+			for _, l := range ls {
+				for _, k := range []string{"comment", "comment-with-row-like-tail", "row-trailing-spaces", "row-trailing-tabs", "row-between", "row-leading", "header-leading", "header-trailing"} {
+					if !emit(longLine{l, k}) {
+						return
+					}
+				}
+			}
+		},
+		func(c longLine) core.Outcome {
+			pad := func(n int, ch string) string { return strings.Repeat(ch, max(n, 0)) }
+			var text string
+			switch c.Kind {
+			case "comment":
+				text = "#" + pad(c.Len-1, "-") + "\n  A B\nA 1 2\nB 3 4\n"
+			case "comment-with-row-like-tail":
+				text = "  A B\nA 1 2\n#" + pad(c.Len-7, "-") + " B 7 8\nB 3 4\n"
+			case "row-trailing-spaces":
+				text = "  A B\nA 1 2" + pad(c.Len-5, " ") + "\nB 3 4\n"
+			case "row-trailing-tabs":
+				text = "  A B\nA 1 2" + pad(c.Len-5, "\t") + "\nB 3 4\n"
+			case "row-between":
+				text = "  A B\nA 1" + pad(c.Len-4, " ") + "2\nB 3 4\n"
+			case "row-leading":
+				text = "  A B\n" + pad(c.Len-5, " ") + "A 1 2\nB 3 4\n"
+			case "header-leading":
+				text = pad(c.Len-3, " ") + "A B\nA 1 2\nB 3 4\n"
+			case "header-trailing":
+				text = "  A B" + pad(c.Len-5, "\t") + "\nA 1 2\nB 3 4\n"
+			}
+			m, err, p := readNCBI(text)
+			if p != "" {
+				return core.Failf("ReadNCBI panicked on a table with a %s line of %d bytes: %s", c.Kind, c.Len, p)
+			}
+			if err != nil {
+				return core.Failf("ReadNCBI on a table with a %s line of %d bytes failed: %v", c.Kind, c.Len, err)
+			}
+			want := map[[2]byte]float64{{'A', 'A'}: 1, {'A', 'B'}: 2, {'B', 'A'}: 3, {'B', 'B'}: 4}
+			if f := sameMatrix(m, want); f != "" {
+				return core.Failf("ReadNCBI on a table with a %s line of %d bytes: %s", c.Kind, c.Len, f)
+			}
+			return core.Outcome{Class: c.Kind, Nontrivial: true}
+		})
+
 	core.Clause(r, "readncbi-hash-label", core.Opts{Rule: "'#' is a letter of the alphabet like any other as long as it is not the first byte of its line (a comment starts in column 0): every ordered list of 1..3 distinct row labels and column labels from {#, A, *} that uses '#', the header indented as usual and every row labelled '#' indented by a blank or a tab (also: all rows indented): the matrix equals the ground truth; non-trivial = all"},
 		func(emit func(ncbiTable) bool) {
 			var hl [][]core.S
